@@ -241,6 +241,9 @@ def report(prop, mod, tier, seed, ns, m, problems, wall, replay):
     if m['n_oracle_errors']:
         inconclusive.append('%d oracle/driver errors (bug in the monitor, not a verdict); first:\n%s' % (
             m['n_oracle_errors'], (m['oracle_errors'][0] or {}).get('trace', '') if m['oracle_errors'] else ''))
+    if m['extra'].get('n_case_alarms'):
+        inconclusive.append('%d cases were abandoned by the no-progress wall-clock alarm (a call did not return '
+                            'within the alarm period): hang suspected, judged by C09/C10 only' % m['extra']['n_case_alarms'])
     min_eval = getattr(mod, 'MIN_EVAL', 50)
     if not replay and m['evaluations'] < min_eval:
         inconclusive.append('deciding monitor evaluated %d cases (< %d)' % (m['evaluations'], min_eval))
